@@ -787,6 +787,16 @@ class TaskPool:
                         float(timeout),
                         submit_retry=submit
                     )
+            elif timeout and num and itask.state(TASK_STATUS_WAITING):
+                # A retry was lined up when the scheduler stopped: re-arm
+                # its xtrigger so that the remaining delay is honoured.
+                self.task_events_mgr._retry_task(
+                    itask,
+                    float(timeout),
+                    submit_retry=(
+                        ctx_key[1] == TimerFlags.SUBMISSION_RETRY
+                    ),
+                )
             itask.try_timers[ctx_key[1]] = TaskActionTimer(
                 ctx, delays, num, delay, timeout)
         elif ctx:
